@@ -186,7 +186,11 @@ func instantiateGenericModel(
 		if tParamNode.Kind.IsBuiltin() {
 			return tParamNode.Id.Name
 		}
-		return tParamNode.Data.(*metadata.TypeParamDeclMeta).Name
+		// A generic may be instantiated with any type - a declared struct, an alias and so forth - not only with built-ins
+		if typeParamMeta, isTypeParam := tParamNode.Data.(*metadata.TypeParamDeclMeta); isTypeParam {
+			return typeParamMeta.Name
+		}
+		return tParamNode.Id.Name
 	})
 
 	if modelNameTransformer != nil {
